@@ -615,9 +615,14 @@ func (n node) compact(lo uint64) int {
 	mk := n.maxKey()
 	var left, right int
 	for right = 0; right < N; right++ {
-		if n.val(right) < lo && n.key(right) < mk {
-			// Skip over this key. Don't copy it.
-			continue
+		if n.val(right) < lo {
+			if n.key(right) < mk {
+				// Skip over this key. Don't copy it.
+				continue
+			}
+			// The max key is retained because the parent routes by it, but its stale value must
+			// not survive the deletion: a zero value marks the entry as a placeholder.
+			n.setAt(valOffset(right), 0)
 		}
 		// Valid data. Copy it from right to left. Advance left.
 		if left != right {
